@@ -2,6 +2,7 @@ package cross
 
 import (
 	"encoding/json"
+	"math"
 
 	"github.com/gopher-fleece/runtime"
 
@@ -60,6 +61,16 @@ func vhSymbolicRequest(route int, emptyHeaderValues bool) greq.Req {
 	case 7:
 		r.Path = []greq.KV{{Key: "name", Value: symxString("name", 0, 1, "a")}}
 		vhOptional("big", "big", 0, 2, "01-a", &r.Query)
+	case 8:
+		// floating point parameters: texts chosen around the edges of float32 and float64 (concrete candidates)
+		ratios := []string{"1.5", "-0", "1e39", "-1e39", "3.4028235e38", "3.5e38", "1e400", "abc", "", "1_5", "0x1p-2", "1e-50"}
+		if k := symxChoice("ratio", len(ratios)+1); k < len(ratios) {
+			r.Query = append(r.Query, greq.KV{Key: "ratio", Value: ratios[k]})
+		}
+		factors := []string{"2.5", "1e400", "x", ""}
+		if k := symxChoice("factor", len(factors)+1); k < len(factors) {
+			r.Query = append(r.Query, greq.KV{Key: "factor", Value: factors[k]})
+		}
 	}
 	return r
 }
@@ -96,6 +107,12 @@ func vhSameArg(a, b any) bool {
 	case *int8:
 		y, ok := b.(*int8)
 		return ok && (x == nil) == (y == nil) && (x == nil || *x == *y)
+	case float32:
+		y, ok := b.(float32)
+		return ok && math.Float32bits(x) == math.Float32bits(y)
+	case *float64:
+		y, ok := b.(*float64)
+		return ok && (x == nil) == (y == nil) && (x == nil || math.Float64bits(*x) == math.Float64bits(*y))
 	case []string:
 		y, ok := b.([]string)
 		if !ok || len(x) != len(y) {
@@ -228,6 +245,7 @@ func vh_C12_color_Q()   { vhC12(4, false) }
 func vh_C12_ping_Q()    { vhC12(5, false) }
 func vh_C12_remove_Q()  { vhC12(6, false) }
 func vh_C12_put_Q()     { vhC12(7, false) }
+func vh_C12_scale_Q()   { vhC12(8, false) }
 
 // header values may be empty: presence of an empty-valued header
 func vh_C12_empty_header_Q() { vhC12(0, true) }
